@@ -246,6 +246,9 @@ pub struct AsmInput {
     pub funcs: Vec<AsmFunc>,
     pub rom: Vec<(String, usize, Vec<RomByte>)>, // name, alignment, bytes
     pub org: u16,
+    /// virtual encoding used to execute code whose branches do not fit: conditional branches
+    /// are emitted as opcode + 16-bit absolute target (3 bytes); see Machine::wide_rel
+    pub wide_rel: bool,
 }
 
 #[derive(Clone, Debug, PartialEq, Eq)]
@@ -671,7 +674,7 @@ pub fn assemble(input: &AsmInput) -> AsmOutput {
                 match mode {
                     Ok(m) => {
                         pi.mode = Some(m);
-                        pc += m.len() as u32;
+                        pc += if m == Mode::Rel && input.wide_rel { 3 } else { m.len() as u32 };
                     }
                     Err((kind, detail)) => {
                         out.errors.push(AsmError {
@@ -713,6 +716,9 @@ pub fn assemble(input: &AsmInput) -> AsmOutput {
             kind: "image-too-large".into(),
             detail: format!("image ends at {:x}", pc),
         });
+    }
+    if pc > 0x10000 {
+        return out;
     }
     let total = (pc - stub as u32) as usize;
     out.image = vec![0u8; total.min(0x10000)];
@@ -782,7 +788,7 @@ pub fn assemble(input: &AsmInput) -> AsmOutput {
                 let mut target = None;
                 let mut len = 3;
                 if let Some(mode) = pi.mode {
-                    len = mode.len();
+                    len = if mode == Mode::Rel && input.wide_rel { 3 } else { mode.len() };
                     let (opc, _, _) = lookup(&pi.mnemonic, mode).unwrap();
                     let off = (pi.addr as u32 - stub as u32) as usize;
                     let expr = match &pi.shape {
@@ -857,6 +863,11 @@ pub fn assemble(input: &AsmInput) -> AsmOutput {
                                         detail: format!("address {} in [{}]", val, pi.text.trim()),
                                     });
                                 }
+                                out.image[off + 1] = (val & 0xff) as u8;
+                                out.image[off + 2] = ((val >> 8) & 0xff) as u8;
+                                target = Some((val & 0xffff) as u16);
+                            }
+                            Mode::Rel if input.wide_rel => {
                                 out.image[off + 1] = (val & 0xff) as u8;
                                 out.image[off + 2] = ((val >> 8) & 0xff) as u8;
                                 target = Some((val & 0xffff) as u16);
